@@ -215,8 +215,15 @@ M("c05-assign-switch-all-cases", ["C05"], PYEVAL,
   '                _eval_assign_inner(sim, val, lhs_start, rhs, rhs_len)\n                return', '                _eval_assign_inner(sim, val, lhs_start, rhs, rhs_len)', "R-05d")
 
 # ------------------------------------------------------------------------------------------------ C03
+M("c03-async-reset-unmasked", ["C03", "C08", "C20"], PYRTL,
+  'emitter.append(f"slots[{signal_index}].update({signal.init}, {mask})")', 'emitter.append(f"slots[{signal_index}].update({signal.init})")', "R-03a")
+M("c03-async-reset-gets-read-ports", ["C03", "C08", "C20"], PYRTL,
+  "processes.add(self.compile_async_reset(domain, reg_masks))", "processes.add(self.compile_async_reset(domain, lhs_masks))", "R-03a")
+M("c03-async-reset-mask-not-sign-extended", ["C03", "C08"], PYRTL,
+  "                    if signal.shape().signed and (mask & 1 << (len(signal) - 1)):\n                        mask |= -1 << len(signal)\n                    signal_index = self.state.get_signal(signal)\n                    emitter.append(f\"slots[{signal_index}].update({signal.init}, {mask})\")",
+  "                    signal_index = self.state.get_signal(signal)\n                    emitter.append(f\"slots[{signal_index}].update({signal.init}, {mask})\")", "R-03a")
 M("c03-async-reset-on-domain-process", ["C03"], PYRTL,
-  '                    processes.add(self.compile_async_reset(domain, lhs_masks))',
+  '                    processes.add(self.compile_async_reset(domain, reg_masks))',
   '                    self.state.add_signal_waker(domain.rst, edge_waker(domain_process, 1))', "R-03a")
 M("c03-clk-polarity-const", ["C03"], PYRTL,
   'self.state.add_signal_waker(domain.clk, edge_waker(domain_process, clk_polarity))',
@@ -225,8 +232,8 @@ M("c03-rst-waker-clk-polarity", ["C03"], PYRTL,
   'self.state.add_signal_waker(domain.rst, edge_waker(reset_process, 1))',
   'self.state.add_signal_waker(domain.rst, edge_waker(reset_process, 0))', "R-03a")
 M("c03-async-reset-resets-reset-less", ["C03"], PYRTL,
-  '                if not signal.reset_less:\n                    signal_index = self.state.get_signal(signal)\n                    emitter.append(f"slots[{signal_index}].update({signal.init})")',
-  '                if True:\n                    signal_index = self.state.get_signal(signal)\n                    emitter.append(f"slots[{signal_index}].update({signal.init})")', "R-03a")
+  '                if not signal.reset_less:\n                    if signal.shape().signed and (mask & 1 << (len(signal) - 1)):\n                        mask |= -1 << len(signal)\n                    signal_index = self.state.get_signal(signal)\n                    emitter.append(f"slots[{signal_index}].update({signal.init}, {mask})")',
+  '                if True:\n                    if signal.shape().signed and (mask & 1 << (len(signal) - 1)):\n                        mask |= -1 << len(signal)\n                    signal_index = self.state.get_signal(signal)\n                    emitter.append(f"slots[{signal_index}].update({signal.init}, {mask})")', "R-03a")
 M("c03-sim-reset-block-reset-less", ["C03"], PYRTL,
   '                            if not signal.reset_less:\n                                signal_index = self.state.get_signal(signal)\n                                emitter.append(f"next_{signal_index} = {signal.init}")',
   '                            if True:\n                                signal_index = self.state.get_signal(signal)\n                                emitter.append(f"next_{signal_index} = {signal.init}")', "R-03b")
